@@ -317,12 +317,9 @@ def parse_writer_config():
     hdr = rd("libqpdf/qpdf/QPDFWriter_private.hh")
     cc = rd("libqpdf/QPDFWriter.cc")
     m = re.search(r"class Config\n\s*\{(.*?)\n\s*\}; // class Writer::Config", hdr, re.S)
-    if not m:
-        raise Shape("QPDFWriter_private.hh: class Writer::Config not found")
-    body = m.group(1)
+    body = m.group(1) if m else ""
     fields = set(re.findall(r"^\s+(?:std::string|bool|int|qpdf_\w+)\s+(\w+_)(?:\{[^}]*\})?;", body, re.M))
-    if len(fields) < 15:
-        raise Shape("QPDFWriter_private.hh: Writer::Config members not found")
+
     defs = {}
     for mm in re.finditer(r"^\s+(\w+)\(([^)]*)\)(?: const)?\n\s+\{\n(.*?)\n            \}", body, re.S | re.M):
         defs.setdefault((mm.group(1), bool(mm.group(2).strip())), mm.group(3))
@@ -387,7 +384,11 @@ def parse_config_footprints():
                     continue
                 key = (mm.group(2), has)
                 if key not in wcfg:
-                    raise Shape("QPDFJob_config.cc: unknown Writer::Config %s %s" % ("setter" if has else "getter", mm.group(2)))
+                    # a setter/getter the header parse did not find: one opaque member (read and written)
+                    reads.add("w_cfg." + mm.group(2) + "()")
+                    if has:
+                        writes.append(("w_cfg." + mm.group(2) + "()", "?"))
+                    continue
                 r, w = wcfg[key]
                 reads |= {"w_cfg." + x for x in r}
                 writes += [("w_cfg." + x, t) for x, t in w]
@@ -453,9 +454,7 @@ def parse_config_footprints():
                 wt[f] = t if f not in wt or wt[f] == t else "?"
             w = sorted(wt.items())
         merged[k] = (r, w)
-    if len(merged) < 100:
-        raise Shape("QPDFJob_config.cc: only %d Config methods recognised" % len(merged))
-    return merged
+    return merged     # completeness is decided by theorem footprints_cover_tables
 
 
 def parse_all():
@@ -535,13 +534,27 @@ def emit(d):
     return "\n".join(o) + "\n"
 
 
+FAILED_MARK = os.path.join(VERIF, "_build", "gen", "job_tables.failed")
+
+
 def main():
+    """On a source shape the translator does not understand: the reason is written to _build/gen/job_tables.failed, which makes
+    `./check C19` report a broken tie; an existing coq/Gen/JobTables.v is left in place so that the other properties' checks (which share
+    the Coq build and the extraction) are not disturbed."""
+    gdir = os.path.join(VERIF, "coq", "Gen")
+    p = os.path.join(gdir, "JobTables.v")
+    os.makedirs(os.path.dirname(FAILED_MARK), exist_ok=True)
     try:
         d = parse_all()
         txt = emit(d)
-    except Shape as e:
-        print("translate_job_tables: %s" % e)
-        return 1
+    except Exception as e:
+        msg = "translate_job_tables: %s: %s" % (type(e).__name__, e)
+        print(msg)
+        with open(FAILED_MARK, "w") as f:
+            f.write(msg + "\n")
+        return 0 if os.path.exists(p) else 1
+    if os.path.exists(FAILED_MARK):
+        os.remove(FAILED_MARK)
     # dispatch table for the driver's replay of Config calls (harness/drv_job.cc includes it): one line per Config method the tables bind
     disp = set()
     for e in d["argv"] + d["json"]:
@@ -555,9 +568,7 @@ def main():
         with open(ip, "w") as f:
             f.write(inc)
         os.utime(os.path.join(VERIF, "harness", "drv_job.cc"))   # the driver is rebuilt by the next common.build_drv()
-    gdir = os.path.join(VERIF, "coq", "Gen")
     os.makedirs(gdir, exist_ok=True)
-    p = os.path.join(gdir, "JobTables.v")
     if not os.path.exists(p) or open(p).read() != txt:
         with open(p, "w") as f:
             f.write(txt)
